@@ -99,6 +99,9 @@ type Entry struct {
 	SnapEq   bool   `json:"snapeq"`             // rejected registration: raw state before == after
 	SnapDiff string `json:"snapdiff,omitempty"` // what differs otherwise
 	CanViz   bool   `json:"canviz,omitempty"`
+	// NoArgs: the values user functions received and the cached values were not observed (traces
+	// of the repository's own tests): only keys, counts, order and outcomes are compared
+	NoArgs bool `json:"noargs,omitempty"`
 }
 
 type planKey struct {
